@@ -5,6 +5,7 @@ package main
 // temporaries, statement order and block structure; it is not source text.
 
 import (
+	"os"
 	"fmt"
 	"go/ast"
 	"go/constant"
@@ -169,13 +170,46 @@ func (r *renderer) val(v ssa.Value, d int) string {
 		}
 		r.onPath[x] = true
 		defer delete(r.onPath, x)
+		// `if c { v = true } else { v = false }` is v = c
+		if len(x.Edges) == 2 && len(x.Block().Preds) == 2 {
+			p0, p1 := x.Block().Preds[0], x.Block().Preds[1]
+			if ifi, firstIsTrue := diamondOf(p0, p1); ifi != nil {
+				e0, e1 := r.val(x.Edges[0], d+2), r.val(x.Edges[1], d+2)
+				if !firstIsTrue {
+					e0, e1 = e1, e0
+				}
+				if s, ok := r.branchSelect(ifi.Cond, e0, e1, d); ok {
+					return s
+				}
+			} else {
+				// triangle: one predecessor is the testing block itself
+				for i := 0; i < 2; i++ {
+					t, arm := x.Block().Preds[i], x.Block().Preds[1-i]
+					ifi, ok := t.Instrs[len(t.Instrs)-1].(*ssa.If)
+					if !ok || len(arm.Preds) != 1 || arm.Preds[0] != t || len(t.Succs) != 2 {
+						continue
+					}
+					viaTest, viaArm := r.val(x.Edges[i], d+2), r.val(x.Edges[1-i], d+2)
+					onTrue, onFalse := viaArm, viaTest
+					if t.Succs[1] == arm {
+						onTrue, onFalse = viaTest, viaArm
+					}
+					if s, ok := r.branchSelect(ifi.Cond, onTrue, onFalse, d); ok {
+						return s
+					}
+				}
+			}
+		}
 		var parts []string
 		seen := map[string]bool{}
 		for _, e := range x.Edges {
 			s := r.val(e, d+2)
-			if !seen[s] {
-				seen[s] = true
-				parts = append(parts, s)
+			// a merge of merges is one merge: phi(phi(a | b) | c) = phi(a | b | c)
+			for _, leaf := range phiLeaves(s) {
+				if !seen[leaf] {
+					seen[leaf] = true
+					parts = append(parts, leaf)
+				}
 			}
 		}
 		sort.Strings(parts)
@@ -247,8 +281,123 @@ func (r *renderer) load(addr ssa.Value, d int) string {
 		return r.allocContent(a, d)
 	case *ssa.FreeVar:
 		return "free:" + typeShort(a.Type())
+	case *ssa.Call:
+		// *Not(&NewValue(b)) for a boolean b is NewValue(!b) (Not(v) = NewValue(!isTruthy(v)), checked by
+		// C05/R8, and a boolean value is truthy exactly when it is true)
+		if staticCalleeIs(a, "(*lang.Value).Not") && len(a.Call.Args) == 1 {
+			arg := r.val(a.Call.Args[0], d)
+			if strings.HasPrefix(arg, "&lang.NewValue(") && strings.HasSuffix(arg, ")") {
+				inner := arg[len("&lang.NewValue(") : len(arg)-1]
+				if isBoolText(inner) {
+					return "lang.NewValue(" + negText(inner) + ")"
+				}
+			}
+		}
 	}
 	return "*" + r.val(addr, d)
+}
+
+// isBoolText: the rendering is that of a boolean expression (constant, comparison, negation, or a
+// call known to return bool)
+func isBoolText(s string) bool {
+	if s == "true" || s == "false" || strings.HasPrefix(s, "!") {
+		return true
+	}
+	if strings.HasPrefix(s, "(") && strings.HasSuffix(s, ")") {
+		if _, op, _, ok := splitTopLevelRel(s[1 : len(s)-1]); ok && op != "" {
+			return true
+		}
+	}
+	for _, f := range []string{"(*regexp.Regexp).MatchString(", "(*lang.Value).isTruthy(", "lang.isTruthy("} {
+		if strings.HasPrefix(s, f) {
+			return true
+		}
+	}
+	return false
+}
+
+// splitTopLevelRel splits "A op B" at the relational operator that is not nested in brackets.
+func splitTopLevelRel(s string) (string, string, string, bool) {
+	depth := 0
+	for i := 0; i < len(s); i++ {
+		switch s[i] {
+		case '(', '[', '{':
+			depth++
+		case ')', ']', '}':
+			depth--
+		case ' ':
+			if depth != 0 {
+				continue
+			}
+			for _, op := range []string{" == ", " != ", " <= ", " >= ", " < ", " > "} {
+				if strings.HasPrefix(s[i:], op) {
+					return s[:i], strings.TrimSpace(op), s[i+len(op):], true
+				}
+			}
+		}
+	}
+	return "", "", "", false
+}
+
+// negText: the rendering of the negation of a boolean rendering (== and != are flipped; ordering
+// comparisons are not, because !(a < b) is not a >= b for NaN)
+func negText(s string) string {
+	switch {
+	case s == "true":
+		return "false"
+	case s == "false":
+		return "true"
+	case strings.HasPrefix(s, "!"):
+		return s[1:]
+	}
+	if strings.HasPrefix(s, "(") && strings.HasSuffix(s, ")") {
+		if a, op, b, ok := splitTopLevelRel(s[1 : len(s)-1]); ok {
+			switch op {
+			case "==":
+				return "(" + a + " != " + b + ")"
+			case "!=":
+				return "(" + a + " == " + b + ")"
+			}
+		}
+	}
+	return "!" + s
+}
+
+// branchSelect: v1 is the value on the true edge of an If, v0 on the false edge, of two renderings
+// that are the boolean constants (plain or wrapped in NewValue): the merged value is the condition.
+func (r *renderer) branchSelect(cond ssa.Value, onTrue, onFalse string, d int) (string, bool) {
+	c := r.val(cond, d+1)
+	switch {
+	case onTrue == "true" && onFalse == "false":
+		return c, true
+	case onTrue == "false" && onFalse == "true":
+		return negText(c), true
+	case onTrue == "lang.NewValue(true)" && onFalse == "lang.NewValue(false)":
+		return "lang.NewValue(" + c + ")", true
+	case onTrue == "lang.NewValue(false)" && onFalse == "lang.NewValue(true)":
+		return "lang.NewValue(" + negText(c) + ")", true
+	}
+	return "", false
+}
+
+// diamondOf: the two blocks are the two arms of one If (each reached only from it); returns the If
+// and whether b1 is its true arm.
+func diamondOf(b1, b2 *ssa.BasicBlock) (*ssa.If, bool) {
+	if b1 == nil || b2 == nil || len(b1.Preds) != 1 || len(b2.Preds) != 1 || b1.Preds[0] != b2.Preds[0] {
+		return nil, false
+	}
+	d := b1.Preds[0]
+	ifi, ok := d.Instrs[len(d.Instrs)-1].(*ssa.If)
+	if !ok || len(d.Succs) != 2 {
+		return nil, false
+	}
+	if d.Succs[0] == b1 && d.Succs[1] == b2 {
+		return ifi, true
+	}
+	if d.Succs[1] == b1 && d.Succs[0] == b2 {
+		return ifi, false
+	}
+	return nil, false
 }
 
 func uniqueWholeStore(a *ssa.Alloc) ssa.Value {
@@ -326,6 +475,34 @@ func (r *renderer) allocContent(a *ssa.Alloc, d int) string {
 			if st, ok := rf.(*ssa.Store); ok && st.Addr == ssa.Value(a) {
 				nWhole++
 				base = r.val(st.Val, d+1)
+			}
+		}
+		if nWhole == 2 {
+			// `if c { v = NewValue(true) } else { v = NewValue(false) }` is v = NewValue(c)
+			var sts []*ssa.Store
+			fieldStores := false
+			for _, rf := range referrersOf(a) {
+				if st, ok := rf.(*ssa.Store); ok && st.Addr == ssa.Value(a) {
+					sts = append(sts, st)
+				}
+				if fa, ok := rf.(*ssa.FieldAddr); ok {
+					for _, rr := range referrersOf(fa) {
+						if st, ok := rr.(*ssa.Store); ok && st.Addr == ssa.Value(fa) {
+							fieldStores = true
+						}
+					}
+				}
+			}
+			if len(sts) == 2 && !fieldStores {
+				if ifi, firstIsTrue := diamondOf(sts[0].Block(), sts[1].Block()); ifi != nil {
+					e0, e1 := r.val(sts[0].Val, d+1), r.val(sts[1].Val, d+1)
+					if !firstIsTrue {
+						e0, e1 = e1, e0
+					}
+					if s, ok := r.branchSelect(ifi.Cond, e0, e1, d); ok {
+						return s
+					}
+				}
 			}
 		}
 		if nWhole > 1 {
@@ -516,37 +693,117 @@ func nativeMethods(p *Program) []nativeMethod {
 // result may be nil, together with the rendered facts that hold there.
 type resultCase struct {
 	Ret    *ssa.Return
+	Inner  *ssa.Return // the callee's return when the result comes through a tail call of a private helper
 	Value  string
 	Guards []string
 }
 
 func (p *Program) successResults(fn *ssa.Function) []resultCase {
+	out := p.successResultsR(fn, &renderer{p: p}, 0)
+	sort.SliceStable(out, func(i, j int) bool { return out[i].Ret.Pos() < out[j].Ret.Pos() })
+	return out
+}
+
+// tailCallOf: the return hands on exactly the results of one call of a module function
+// (`return g(args)`): the callee's returns are then the function's own.
+func (p *Program) tailCallOf(fn *ssa.Function, res []ssa.Value) *ssa.Call {
+	var call *ssa.Call
+	for i, v := range res {
+		var c *ssa.Call
+		switch x := v.(type) {
+		case *ssa.Call:
+			if len(res) == 1 {
+				c = x
+			}
+		case *ssa.Extract:
+			if cc, ok := x.Tuple.(*ssa.Call); ok && x.Index == i {
+				c = cc
+			}
+		}
+		if c == nil || (call != nil && c != call) {
+			return nil
+		}
+		call = c
+	}
+	if call == nil {
+		if os.Getenv("JQDEBUG") != "" {
+			fmt.Fprintf(os.Stderr, "tailCallOf %s: no call (res=%v)\n", fn, res)
+		}
+		return nil
+	}
+	g := call.Call.StaticCallee()
+	if g == nil || g == fn || !p.InModule(g) || p.inTestFile(g) || g.Parent() != nil || len(g.Blocks) == 0 || len(g.Params) != len(call.Call.Args) {
+		if os.Getenv("JQDEBUG") != "" {
+			fmt.Fprintf(os.Stderr, "tailCallOf %s: callee %v rejected params=%d args=%d\n", fn, g, len(g.Params), len(call.Call.Args))
+		}
+		return nil
+	}
+	if g.Signature.Results().Len() != len(res) {
+		return nil
+	}
+	// only private helpers: every call site of g is in fn (a function used from several places is a
+	// unit of its own and is judged by its own rules)
+	for _, cs := range p.CallSitesOf(g) {
+		if cs.Parent() != fn && !p.inTestFile(cs.Parent()) {
+			if os.Getenv("JQDEBUG") != "" {
+				fmt.Fprintf(os.Stderr, "tailCallOf %s: %s also called from %s\n", fn, g, cs.Parent())
+			}
+			return nil
+		}
+	}
+	if os.Getenv("JQDEBUG") != "" {
+		fmt.Fprintf(os.Stderr, "tailCallOf %s: expanding %s\n", fn, g)
+	}
+	return call
+}
+
+func (p *Program) successResultsR(fn *ssa.Function, rr *renderer, depth int) []resultCase {
 	ek := EKOf(p)
 	F := FactsOf(fn)
 	errIdx := errResultIndex(fn.Signature)
 	var out []resultCase
+	guardsOf := func(b *ssa.BasicBlock) []string {
+		var gs []string
+		for _, rl := range F.At(b).Rels() {
+			gs = append(gs, rr.val(rl.x, 0)+" "+rl.op.String()+" "+rr.val(rl.y, 0))
+		}
+		for f := range F.At(b) {
+			if _, ok := relsOf(f); !ok {
+				s := rr.val(f.cond, 0)
+				if !f.truth {
+					s = "!" + s
+				}
+				gs = append(gs, s)
+			}
+		}
+		return gs
+	}
 	for _, r := range returnsOf(fn) {
 		res := effectiveResults(r)
 		if errIdx >= 0 && !ek.KindsAt(res[errIdx], F.At(r.Block())).Has(KNil) {
 			continue
 		}
-		rc := resultCase{Ret: r, Value: p.Render(res[0])}
-		for _, rl := range F.At(r.Block()).Rels() {
-			rc.Guards = append(rc.Guards, p.Render(rl.x)+" "+rl.op.String()+" "+p.Render(rl.y))
-		}
-		for f := range F.At(r.Block()) {
-			if _, ok := relsOf(f); !ok {
-				s := p.Render(f.cond)
-				if !f.truth {
-					s = "!" + s
-				}
-				rc.Guards = append(rc.Guards, s)
+		if call := p.tailCallOf(fn, res); call != nil && depth < 2 {
+			g := call.Call.StaticCallee()
+			sub := &renderer{p: p, subst: map[*ssa.Parameter]string{}, depth: rr.depth, onPath: rr.onPath}
+			for i, prm := range g.Params {
+				sub.subst[prm] = rr.val(call.Call.Args[i], 0)
 			}
+			outer := guardsOf(r.Block())
+			for _, in := range p.successResultsR(g, sub, depth+1) {
+				in.Inner = in.Ret
+				in.Ret = r
+				in.Guards = append(in.Guards, outer...)
+				sort.Strings(in.Guards)
+				out = append(out, in)
+			}
+			continue
 		}
+		rc := resultCase{Ret: r, Value: rr.val(res[0], 0)}
+		rc.Guards = guardsOf(r.Block())
 		sort.Strings(rc.Guards)
 		out = append(out, rc)
 	}
-	sort.Slice(out, func(i, j int) bool { return out[i].Ret.Pos() < out[j].Ret.Pos() })
 	return out
 }
 
@@ -778,4 +1035,52 @@ func canonParamName(x *ssa.Parameter) string {
 		}
 	}
 	return x.Name()
+}
+
+// phiLeaves splits a rendering of the form phi(a | b | …) at its top-level separators; any other
+// rendering is its own single leaf.
+func phiLeaves(s string) []string {
+	if !strings.HasPrefix(s, "phi(") || !strings.HasSuffix(s, ")") {
+		return []string{s}
+	}
+	// the closing bracket of the leading phi( must be the last character
+	depth := 0
+	for i := 3; i < len(s); i++ {
+		switch s[i] {
+		case '(', '[', '{':
+			depth++
+		case ')', ']', '}':
+			depth--
+			if depth == 0 && i != len(s)-1 {
+				return []string{s}
+			}
+		}
+	}
+	inner := s[4 : len(s)-1]
+	var out []string
+	depth = 0
+	start := 0
+	inStr := false
+	for i := 0; i < len(inner); i++ {
+		ch := inner[i]
+		if ch == '"' && (i == 0 || inner[i-1] != '\\') {
+			inStr = !inStr
+		}
+		if inStr {
+			continue
+		}
+		switch ch {
+		case '(', '[', '{':
+			depth++
+		case ')', ']', '}':
+			depth--
+		case ' ':
+			if depth == 0 && strings.HasPrefix(inner[i:], " | ") {
+				out = append(out, inner[start:i])
+				start = i + 3
+			}
+		}
+	}
+	out = append(out, inner[start:])
+	return out
 }
